@@ -190,7 +190,14 @@ def loop_rules(ctx, rep, impl):
         return set()
     err_exits = []
     for bb, t in b.calls_to(r"FromResidual::from_residual$"):
-        srcs = direct_sources(b.origin(t["args"][0]), set())
+        o = b.origin(t["args"][0])
+        try:
+            alts = b.alternatives(o) or [o]          # `(phi as Break.0)`: only the alternatives built as a failure carry an error
+        except Exception:
+            alts = [o]
+        srcs = set()
+        for a in alts:
+            srcs |= direct_sources(a, set())
         err_exits.append((bb, sorted(srcs)))
     allowed = ("Codec::decode", "Packet::maybe_verify_version", "framed::Framed::write", "framed::Framed::read_buf", "tokio::time::timeout::timeout")
     bad = [(bb, s) for bb, s in err_exits if not (s and all(any(x.endswith(a) for a in allowed) for x in s))]
